@@ -1,4 +1,5 @@
 import DigModel.Proofs.Parse
+import DigModel.Proofs.RegOKApi
 /-
   C09 — Key identity: type+name and type+group never mix; duplicates rejected.
 
@@ -11,6 +12,11 @@ import DigModel.Proofs.Parse
     occurs earlier in the same constructor's results, makes `findAndValidateResults` fail;
   * `C09_groups_free`: grouped results never cause a duplicate rejection;
   (a failing check rejects the Provide, which by C06_provide_unchanged leaves no trace.)
+  * `C09_one_provider_per_key` / `C09_registered_under_declared_keys` / `C09_own_keys_distinct` (whole programs,
+    invariant `RegInv` of every API step): in every reachable container two constructors listed under one key of
+    one scope cannot both declare it as a single (type + name) key — duplicates never get in, whatever the
+    order of Provides, rejections, Exports and scopes; every constructor is listed, in its home scope, under
+    every single key its results declare; and a constructor's own single keys are pairwise distinct.
 -/
 namespace Dig.C09
 
@@ -110,7 +116,24 @@ theorem C09_groups_free (target : ScopeSt) : ∀ (rs : List Result) (seen : List
     simp only [visitKeys]
     exact ih _ (fun r' hr' => h r' (by simp [hr']))
 
+theorem C09_one_provider_per_key (p : Program) (S : Nat) (k : Key) (n n' : Nat)
+    (h1 : n ∈ agetL ((runProgram p).1.scope S).providers k) (h2 : n' ∈ agetL ((runProgram p).1.scope S).providers k)
+    (hk1 : k ∈ ctorKeys (runProgram p).1 n) (hk2 : k ∈ ctorKeys (runProgram p).1 n') : n = n' :=
+  (regInv_program p).uniq S k n n' h1 h2 hk1 hk2
+
+theorem C09_registered_under_declared_keys (p : Program) (n : Nat) (hn : n < (runProgram p).1.ctors.length)
+    (k : Key) (hk : k ∈ ctorKeys (runProgram p).1 n) :
+    n ∈ agetL ((runProgram p).1.scope ((runProgram p).1.ctor n).s).providers k :=
+  (regInv_program p).regOK n hn k hk
+
+theorem C09_own_keys_distinct (p : Program) (n : Nat) (hn : n < (runProgram p).1.ctors.length) :
+    (ctorKeys (runProgram p).1 n).Nodup :=
+  (regInv_program p).nodup n hn
+
 #print axioms C09_keys_distinct
+#print axioms C09_one_provider_per_key
+#print axioms C09_registered_under_declared_keys
+#print axioms C09_own_keys_distinct
 #print axioms C09_as_only
 #print axioms C09_as_sound
 #print axioms C09_dup_single
